@@ -2,11 +2,11 @@ package main
 
 import (
 	"fmt"
-	"go/constant"
-	"os"
 	"go/ast"
+	"go/constant"
 	"go/token"
 	"go/types"
+	"os"
 	"sort"
 	"strings"
 )
@@ -19,7 +19,7 @@ type prePair struct {
 	seqKey  string // captured sequence term (closures)
 	seqName string
 	strict  bool
-	ints    bool // sp is another int parameter: parameter ip <= parameter sp (the bounds of a window)
+	ints    bool   // sp is another int parameter: parameter ip <= parameter sp (the bounds of a window)
 	rfield  string // sp == -2: the sequence is this field of the method's receiver (seqKey is its term inside the method)
 }
 
@@ -637,7 +637,7 @@ func (a *idxAnalyzer) checkCallPre(z *zone, call *ast.CallExpr) {
 		return
 	}
 	pps := a.pre[id]
-	if len(pps) == 0 || !a.final {
+	if len(pps) == 0 {
 		return
 	}
 	for _, pp := range pps {
@@ -1214,6 +1214,13 @@ func (a *idxAnalyzer) runAll(fds []*ast.FuncDecl) {
 				failing[s.fn] = true
 			}
 		}
+		// a callee's precondition that this function cannot establish from its own guards becomes this
+		// function's precondition (it forwards its parameters): judged at *its* callers
+		for _, c := range a.callObls {
+			if !c.ok && c.fn != nil {
+				failing[c.fn] = true
+			}
+		}
 		for _, fd := range fds {
 			if !failing[fd] {
 				continue
@@ -1290,8 +1297,8 @@ func (a *idxAnalyzer) runAll(fds []*ast.FuncDecl) {
 	}
 	// minimise: drop every assumed pair whose removal does not add a failing site
 	countFail := func(fd *ast.FuncDecl) int {
-		save := a.sites
-		a.sites = nil
+		save, saveCalls := a.sites, a.callObls
+		a.sites, a.callObls = nil, nil
 		a.analyseFunc(fd)
 		n := 0
 		for _, s := range a.sites {
@@ -1299,41 +1306,51 @@ func (a *idxAnalyzer) runAll(fds []*ast.FuncDecl) {
 				n++
 			}
 		}
-		a.sites = save
+		// a pair that only serves to establish a callee's precondition is needed too
+		for _, c := range a.callObls {
+			if !c.ok {
+				n++
+			}
+		}
+		a.sites, a.callObls = save, saveCalls
 		return n
 	}
-	for _, fd := range fds {
-		ids := []types.Object{}
-		if o, ok := a.info.Defs[fd.Name].(*types.Func); ok {
-			ids = append(ids, o)
-		}
-		for o, lit := range a.litOf {
-			if lit.Pos() >= fd.Pos() && lit.End() <= fd.End() {
+	// (repeated: a pair a caller keeps only for a callee's precondition becomes droppable once the callee's own
+	// unneeded pairs are gone)
+	for minPass := 0; minPass < 3; minPass++ {
+		for _, fd := range fds {
+			ids := []types.Object{}
+			if o, ok := a.info.Defs[fd.Name].(*types.Func); ok {
 				ids = append(ids, o)
 			}
-		}
-		sort.Slice(ids, func(i, j int) bool { return ids[i].Pos() < ids[j].Pos() })
-		for _, id := range ids {
-			if len(a.pre[id]) == 0 {
-				continue
-			}
-			base := countFail(fd)
-			for i := 0; i < len(a.pre[id]); {
-				full := a.pre[id]
-				trial := append(append([]prePair{}, full[:i]...), full[i+1:]...)
-				a.pre[id] = trial
-				if countFail(fd) <= base {
-					continue // not needed: stays removed
+			for o, lit := range a.litOf {
+				if lit.Pos() >= fd.Pos() && lit.End() <= fd.End() {
+					ids = append(ids, o)
 				}
-				a.pre[id] = full
-				i++
 			}
-			// weaken strict pairs to non-strict where that is enough
-			for i := range a.pre[id] {
-				if a.pre[id][i].strict {
-					a.pre[id][i].strict = false
-					if countFail(fd) > base {
-						a.pre[id][i].strict = true
+			sort.Slice(ids, func(i, j int) bool { return ids[i].Pos() < ids[j].Pos() })
+			for _, id := range ids {
+				if len(a.pre[id]) == 0 {
+					continue
+				}
+				base := countFail(fd)
+				for i := 0; i < len(a.pre[id]); {
+					full := a.pre[id]
+					trial := append(append([]prePair{}, full[:i]...), full[i+1:]...)
+					a.pre[id] = trial
+					if countFail(fd) <= base {
+						continue // not needed: stays removed
+					}
+					a.pre[id] = full
+					i++
+				}
+				// weaken strict pairs to non-strict where that is enough
+				for i := range a.pre[id] {
+					if a.pre[id][i].strict {
+						a.pre[id][i].strict = false
+						if countFail(fd) > base {
+							a.pre[id][i].strict = true
+						}
 					}
 				}
 			}
